@@ -771,6 +771,13 @@ func (p *Parser) walkType(u types.Universe, useName *types.Name, in gotypes.Type
 			out.Underlying = p.walkType(u, nil, t.Underlying())
 		case *gotypes.Struct, *gotypes.Interface:
 			name := goNameToName(t.String())
+			if t.TypeArgs().Len() != 0 {
+				// An instantiation (Foo[int]) is recorded under the name of
+				// its generic declaration (Foo[T]): describe that
+				// declaration, not whichever instantiation happens to be
+				// walked first.
+				t = t.Origin()
+			}
 			tpMap := map[string]*types.Type{}
 			if t.TypeParams().Len() != 0 {
 				// Remove generics, then readd them without the encoded
